@@ -185,7 +185,7 @@ class GridBroker:
     def __init__(self, grid):
         self.grid = grid
 
-    def get_servers_for_psi(self, peer_selection_index, for_upload=True):
+    def get_servers_for_psi(self, peer_selection_index, for_upload=False):     # (the default of the real StorageFarmBroker)
         servers = [s for s in self.grid.connected_servers() if (not for_upload) or s.upload_permitted()]
         return sorted(servers, key=lambda s: permute_server_hash(peer_selection_index, s.get_permutation_seed()))
 
